@@ -101,7 +101,7 @@ func genBatch(r *rand.Rand, pool []string, members map[string]int64) ([]pv, stri
 			}
 		}
 	}
-	switch r.Intn(22) {
+	switch r.Intn(24) {
 	case 0: // duplicate entry
 		if len(b) > 0 {
 			d := b[r.Intn(len(b))]
@@ -149,6 +149,29 @@ func genBatch(r *rand.Rand, pool []string, members map[string]int64) ([]pv, stri
 	case 7:
 		b = nil
 		kind = "empty"
+	case 9, 10: // many powers near the maximum in one batch: the sum of the increases exceeds int64
+		b = nil
+		cnt := 9 + r.Intn(7)
+		for _, i := range r.Perm(len(pool)) {
+			if len(b) >= cnt {
+				break
+			}
+			b = append(b, pv{addr: pool[i], power: maxTotal - int64(r.Intn(50))})
+		}
+		if r.Intn(2) == 0 && len(in) > 0 { // with matching removals / decreases
+			for _, a := range in {
+				dup := false
+				for _, x := range b {
+					if x.addr == a {
+						dup = true
+					}
+				}
+				if !dup && r.Intn(2) == 0 {
+					b = append(b, pv{addr: a, power: 0})
+				}
+			}
+		}
+		kind = "many-huge"
 	case 8: // swap: remove a huge one and add a huge one (tvp before removals near 2*max)
 		kind = "swap-huge"
 		var big string
@@ -513,6 +536,16 @@ func genStore(r *rand.Rand, emit func(core.Case), n int, thorough bool) {
 			if r.Intn(12) == 0 {
 				ops = append(ops, fmt.Sprintf("load h=%d", h+int64(r.Intn(3))))
 			}
+			if r.Intn(8) == 0 {
+				// the /validators RPC: latest or explicit height, node caught up or block-syncing, the
+				// in-memory consensus state possibly some blocks behind the stores
+				hs := "-"
+				if r.Intn(3) == 0 {
+					hs = fmt.Sprint(ih + int64(r.Intn(int(h-ih)+3)) - 1)
+				}
+				ops = append(ops, fmt.Sprintf("rpcvals h=%s sync=%d lag=%d", hs, r.Intn(2), r.Intn(4)))
+				batchHist["rpcvals"]++
+			}
 			if r.Intn(25) == 0 {
 				from := ih + int64(r.Intn(int(h-ih)+1))
 				to := from + int64(r.Intn(int(h-from)+2))
@@ -561,7 +594,8 @@ func genGlue(r *rand.Rand, emit func(core.Case), n int) {
 		"genesis ih=0 v=" + a + ":1", "genesis ih=1 v=-", "genesis ih=1 v=" + a + ":0", "genesis ih=1 v=" + a + ":-1", "genesis ih=3 v=" + a + ":5",
 		"genesis ih=1 v=" + a + ":5," + a + ":6", "load h=x", "load h=-1", "load h=0", "load h=3", "load h=4", "load h=9223372036854775807",
 		"prune from=0 to=5", "prune from=5 to=5", "prune from=3 to=4", "prune from=1 to=900000", "prune from=3 to=5", "info from=-2 n=65", "info from=0 n=8",
-		"bootstrap", "bootstrap x=1", "rollback", "rollback now=1", "handshake ih=2 v=- iv=-", "handshake ih=2 v=- iv=" + a + ":4 cp=1", "handshake ih=1 v=" + a + ":3 iv=- cp=0",
+		"bootstrap", "bootstrap x=1", "rollback", "rollback now=1", "rpcvals h=- sync=0 lag=0", "rpcvals h=1 sync=1 lag=2",
+		"rpcvals h=0 sync=0 lag=0", "rpcvals h=x sync=0 lag=0", "rpcvals h=- sync=2 lag=0", "rpcvals h=-", "rpcvals h=99 sync=0 lag=1", "handshake ih=2 v=- iv=-", "handshake ih=2 v=- iv=" + a + ":4 cp=1", "handshake ih=1 v=" + a + ":3 iv=- cp=0",
 		"handshake ih=1 v=" + a + ":3 iv=" + a + ":0", "handshake ih=0 v=- iv=" + a + ":1", "handshake ih=3 v=" + a + ":3",
 		"frobnicate", "block ch=" + a + ":0", "block ch=" + a + ":7", "block",
 	}
